@@ -20,6 +20,7 @@ class CallGraph:
         self.unresolved = 0
         self.resolved = 0
         self.funcs = {f.fq: f for f in repo.all_functions()}
+        self._direct: dict[str, bool] = {}  # callee fq -> reached by a resolved (non-CHA) edge
         for f in repo.all_functions():
             self.edges[f.fq] = self._callees(f)
 
@@ -36,16 +37,21 @@ class CallGraph:
                     r = self.repo.resolve_name(f.module, fn.id)
                     if r and r[0] == "func":
                         out.add(r[1].fq)
+                        self._direct[r[1].fq] = True
                         self.resolved += 1
                     elif r and r[0] == "class":
                         self._ctor(r[1], out)
                         self.resolved += 1
-                    else:
-                        self.unresolved += 0 if r else 0
                 elif isinstance(fn, ast.Attribute):
                     r = self.repo.resolve_dotted(f.module, fn)
+                    if fn.attr in ("toxml", "toprettyxml"):
+                        # curated fact: minidom toxml/toprettyxml call self.writexml
+                        for g in self.by_name.get("writexml", []):
+                            out.add(g.fq)
+                            self._direct[g.fq] = True
                     if r and r[0] == "func":
                         out.add(r[1].fq)
+                        self._direct[r[1].fq] = True
                         self.resolved += 1
                     elif r and r[0] == "class":
                         self._ctor(r[1], out)
@@ -72,16 +78,78 @@ class CallGraph:
         for c in self.interp.mro(ci):
             if "__init__" in c.methods:
                 out.add(c.methods["__init__"].fq)
+                self._direct[c.methods["__init__"].fq] = True
                 break
         # instances may later receive any method call: handled by name-CHA at the call site
 
+    # ----------------------------------------------------------------- RTA
+    def _class_loads(self):
+        """function fq -> set of class fq whose name is loaded in it (directly or
+        through a module-level table the function reads)."""
+        if hasattr(self, "_cl"):
+            return self._cl
+        table_classes: dict[tuple[str, str], set[str]] = {}
+        for m in self.repo.modules.values():
+            for name, stmts in m.assigns.items():
+                cs = set()
+                for st in stmts:
+                    for n in ast.walk(st):
+                        if isinstance(n, ast.Name) and isinstance(n.ctx, ast.Load):
+                            r = self.repo.resolve_name(m, n.id)
+                            if r and r[0] == "class":
+                                cs.add(r[1].fq)
+                if cs:
+                    table_classes[(m.name, name)] = cs
+        out = {}
+        for f in self.repo.all_functions():
+            cs = set()
+            for n in walk_own(f.node):
+                if isinstance(n, ast.Name) and isinstance(n.ctx, ast.Load):
+                    r = self.repo.resolve_name(f.module, n.id)
+                    if r and r[0] == "class":
+                        cs.add(r[1].fq)
+                    elif r and r[0] == "const":
+                        cs |= table_classes.get((r[1].name, r[2]), set())
+                elif isinstance(n, ast.Attribute):
+                    r = self.repo.resolve_dotted(f.module, n)
+                    if r and r[0] == "class":
+                        cs.add(r[1].fq)
+                    elif r and r[0] == "const":
+                        cs |= table_classes.get((r[1].name, r[2]), set())
+            out[f.fq] = cs
+        self._cl = out
+        return out
+
     def reachable(self, roots: list[str]) -> set[str]:
-        seen = set()
+        """Rapid type analysis: a method found only by name (class-hierarchy
+        analysis) is followed only if its class, or a subclass, is referenced by
+        already-reachable code."""
+        loads = self._class_loads()
+        classes = {c.fq: c for c in self.repo.all_classes()}
+        anc = {fq: {x.fq for x in self.interp.mro(c)} for fq, c in classes.items()}
+        live_classes: set[str] = set()
+        seen: set[str] = set()
+        pending: set[str] = set()  # method candidates waiting for their class to become live
         stack = list(roots)
         while stack:
             x = stack.pop()
             if x in seen or x not in self.edges:
                 continue
+            f = self.funcs[x]
+            owner = f
+            while owner.cls is None and owner.parent is not None:
+                owner = owner.parent
+            if owner.cls is not None and x not in roots:
+                ok = any(owner.cls.fq in anc[l] for l in live_classes)
+                if not ok and not self._direct.get(x):
+                    pending.add(x)
+                    continue
             seen.add(x)
+            new_live = loads.get(x, set()) - live_classes
+            if new_live:
+                for l in new_live:
+                    live_classes |= {l}
+                stack.extend(pending)
+                pending = set()
             stack.extend(self.edges[x] - seen)
         return seen
